@@ -969,6 +969,15 @@ def gen_macro_scenario(rng, prof=None, tier='quick'):
     isa['sets']['wide'] = [{'id': 'w16', 'kind': 'numeric', 'code': None, 'pos': 'suffix', 'arg': {'size': 16, 'align': True, 'endian': None}, 'valid': False},
                            {'id': 'wind', 'kind': 'indirect_numeric', 'code': (3, 4), 'pos': 'suffix', 'arg': {'size': 16, 'align': True, 'endian': None}, 'valid': False}]
     isa['instrs']['ld3'] = [variant(0x40, 8, sets_parser(['rr'])), variant(0x41, 8, sets_parser(['imm'])), variant(0x42, 8, sets_parser(['wide']))]
+    # a listed combination that needs more operands than the statement has, in front of one that accepts it
+    isa['instrs']['ld2'] = [variant(0x50, 8, spec_parser(2, [[regalt(20, 'a', 1), numeric(21)], [regalt(22, 'a', 1), empty(23, 7)]]))]
+    # a first variant whose indirect register takes no offset, a second whose does: an offset is no reason to stop looking
+    def indreg(i, off):
+        return {'id': f'ir{i}', 'kind': 'indirect_register', 'code': (i, 4), 'pos': 'suffix', 'register': 'x', 'dec': None,
+                'offset': {'size': 8, 'align': True, 'endian': None} if off else None}
+    isa['instrs']['pop2'] = [variant(0x6, 4, spec_parser(1, [[indreg(1, False)]])), variant(0x7, 4, spec_parser(1, [[indreg(2, True)]]))]
+    isa['sets']['irs'] = [indreg(3, False), indreg(4, True)]
+    isa['instrs']['pop3'] = [variant(0x8, 4, sets_parser(['irs']))]
     isa['instrs']['add3b'] = [variant(0x1A, 5, sets_parser(['nb1']))]
     isa['instrs']['cmpq2'] = [variant(0xB, 4, sets_parser(['nb2']))]
     ph = ('ph', 'ARG', 0)
@@ -1005,7 +1014,7 @@ def gen_macro_scenario(rng, prof=None, tier='quick'):
         return Txt(f'{n}+{b}', [t_lab(n), t_op('OAdd'), t_num(b)])
     kinds = ['dbl'] * 5 + ['mac1'] * 2 + ['mac2'] * 2 + ['swp', 'mac3', 'mac3', 'add3', 'add3', 'cmpq', 'cmpq', 'mac4', 'mac4', 'mac5', 'mac5',
                                                           'ldx', 'tst', 'psh2', 'psh2', 'mac6', 'mac6', 'jmpz2', 'jmpz2', 'swp2', 'add3b', 'add3b', 'add3b', 'cmpq2', 'cmpq2', 'cmpq2',
-                                                          'ld3', 'ld3']
+                                                          'ld3', 'ld3', 'ld2', 'ld2', 'pop2', 'pop2', 'pop2']
     # a program is rejected as a whole by one unacceptable statement: at most one statement kind that may be unacceptable
     risky_left = 1 if rng.random() < 0.5 else 0
     for _ in range(rng.randint(2, 7)):
@@ -1062,6 +1071,13 @@ def gen_macro_scenario(rng, prof=None, tier='quick'):
                     stmts.append(['asm', 'ld3', [[str(v), [t_num(v)]]]])
                 else:
                     stmts.append(['asm', 'ld3', [['a', [t_lab('a')]]]])
+        elif k == 'ld2':
+            stmts.append(['asm', 'ld2', rng.choice([[['a', [t_lab('a')]]], [['a', [t_lab('a')]], ['5', [t_num(5)]]], [['A', [t_lab('A')]]]])])
+        elif k == 'pop2':
+            form = rng.choice([Txt('[x]', ['OLBr', t_lab('x'), 'ORBr']), Txt('[x+2]', ['OLBr', t_lab('x'), t_op('OAdd'), t_num(2), 'ORBr']),
+                               Txt('[x - 1]', ['OLBr', t_lab('x'), t_op('OSub'), t_num(1), 'ORBr']),
+                               Txt('[ x + K9 ]', ['OLBr', t_lab('x'), t_op('OAdd'), t_lab('K9'), 'ORBr'])])
+            stmts.append(['asm', rng.choice(['pop2', 'pop2', 'pop3']), [[form.text, form.toks]]])
         elif k == 'swp2':
             rg = rng.choice(['a', 'b'])
             stmts.append(['asm', 'swp2', [[rg, [t_lab(rg)]]]])
